@@ -170,6 +170,8 @@ type Sched struct {
 	points    []Point
 	ncho      int
 	steps     int
+	skipped   int // yields of point classes that are switched off (no scheduling point, but still progress of the execution)
+	skipLimit int
 	dead      bool
 	branching bool
 	res       Result
@@ -255,7 +257,7 @@ func Run(cfg Config, body func()) Result {
 	if cfg.Horizon == 0 {
 		cfg.Horizon = 2_000_000
 	}
-	s := &Sched{cfg: cfg}
+	s := &Sched{cfg: cfg, skipLimit: cfg.Horizon}
 	if !cfg.KeepClock {
 		ResetClock()
 	}
@@ -597,6 +599,19 @@ func Yield(cls int) {
 		return
 	}
 	if cls&(PLock|PStart) == 0 && s.cfg.Points&cls == 0 {
+		// not a scheduling point in this execution - but the horizon also bounds what happens between scheduling
+		// points: a loop of disk operations that never ends (a recovery that follows an overwritten log header,
+		// say) would otherwise go on until the memory is used up
+		s.skipped++
+		if s.skipped > s.skipLimit {
+			s.res.Verdict = VHorizon
+			s.res.Msg = fmt.Sprintf("more than %d disk operations / optional points within the horizon", s.skipLimit)
+			t := s.cur
+			s.kill()
+			if !t.done {
+				runtime.Goexit()
+			}
+		}
 		return
 	}
 	s.schedule(s.cur)
@@ -642,6 +657,16 @@ func SetLockObs(f func(tid int, kind int, addr uint64)) { S.LockObs = f }
 //go:norace
 func Steps() int { return S.steps }
 
+// Horizon returns the current horizon (0 outside an execution).
+//
+//go:norace
+func Horizon() int {
+	if S != nil {
+		return S.cfg.Horizon
+	}
+	return 0
+}
+
 // SetHorizon moves the horizon: the execution is declared a runaway when it
 // passes n scheduling points in total.
 //
@@ -649,6 +674,11 @@ func Steps() int { return S.steps }
 func SetHorizon(n int) {
 	if S != nil {
 		S.cfg.Horizon = n
+		if w := n - S.steps; w > 0 {
+			S.skipLimit = S.skipped + w
+		} else {
+			S.skipLimit = S.skipped
+		}
 	}
 }
 
